@@ -293,8 +293,9 @@ def predicted_names(scope, atoms, idx, spec):
         cs = {"lower": str.lower, "upper": str.upper}[atoms["_case"]]
         atoms = dict(atoms, ns=cs(atoms["ns"]), cls_c=cs(atoms["cls"]))
     cscope = {"lib": "", "conly": "", "ns": atoms["ns"] + "_", "cls": atoms["ns"] + "_" + atoms.get("cls_c", atoms["cls"]) + "_",
-              "deep": atoms["ns"] + "_inner_" + atoms["cls"] + "_", "tcls": atoms["ns"] + "_" + atoms["cls"] + "_int_"}[scope]
-    fscope = atoms["cls"] + "_" if scope in ("cls", "deep") else (atoms["cls"] + "_int_" if scope == "tcls" else "")
+              "deep": atoms["ns"] + "_inner_" + atoms["cls"] + "_", "tcls": atoms["ns"] + "_" + atoms["cls"] + "_int_",
+              "tclsr": atoms["ns"] + "_" + atoms["cls"] + "_int_"}[scope]
+    fscope = atoms["cls"] + "_" if scope in ("cls", "deep") else (atoms["cls"] + "_int_" if scope in ("tcls", "tclsr") else "")
     cn, fn = set(), set()
     for i in range(k):
         if i == k - 1 and d:
@@ -347,12 +348,16 @@ def build_library(atoms, scope, funcs):
         # methods of a class two namespaces down
         lib["declarations"] = [{"decl": "namespace %s" % atoms["ns"], "declarations": [
             {"decl": "namespace inner", "declarations": [{"decl": "class %s" % atoms["cls"], "declarations": decls}]}]}]
-    elif scope == "tcls":
+    elif scope in ("tcls", "tclsr"):
         # methods of an instantiated class template; the first parameter of every overload has the template parameter's type
+        # (tclsr: the template parameter is the result type only, no parameter mentions it)
         import copy as _copy
         tdecls = _copy.deepcopy(decls)
         for nd in tdecls:
-            nd["decl"] = re.sub(r"\b(?:int|double|long) a0\b", "T a0", nd["decl"])
+            if scope == "tclsr":
+                nd["decl"] = re.sub(r"^void ", "T ", nd["decl"])
+            else:
+                nd["decl"] = re.sub(r"\b(?:int|double|long) a0\b", "T a0", nd["decl"])
         lib["declarations"] = [{"decl": "namespace %s" % atoms["ns"], "declarations": [
             {"decl": "template<typename T> class %s" % atoms["cls"], "cxx_template": [{"instantiation": "<int>"}], "declarations": tdecls}]}]
         lib["options"]["wrap_python"] = False          # (this scope is about the C and Fortran names)
@@ -591,7 +596,7 @@ def check_structure(scope, funcs):
             for p in procs:
                 if fname not in p:
                     return "generic interface %s lists %s, a specific of another name" % (gname, p), None
-            if want_f > 1 and scope not in ("cls", "deep", "tcls", "flat") and gname == fname and len(procs) != want_f:
+            if want_f > 1 and scope not in ("cls", "deep", "tcls", "tclsr", "flat") and gname == fname and len(procs) != want_f:
                 return "generic interface %s lists %d specifics, the C++ name has %d callable signatures" % (gname, len(procs), want_f), None
             if scope == "flat" and want_f1 > 1 and len(procs) != want_f1:
                 return "generic interface %s lists %d specifics, its C++ name has %d callable signatures" % (gname, len(procs), want_f1), None
@@ -706,10 +711,12 @@ def structures(tier):
     for s in single:
         if s[4] is False and not (s[2] and s[1] and s[0] == 1):
             out.append(("flat", [s]))
-    for scope in ("lib", "ns", "cls", "deep", "tcls", "conly"):
+    for scope in ("lib", "ns", "cls", "deep", "tcls", "tclsr", "conly"):
         for s in single:
-            if scope in ("cls", "deep", "tcls", "conly") and s[3]:
+            if scope in ("cls", "deep", "tcls", "tclsr", "conly") and s[3]:
                 continue
+            if scope == "tclsr" and (s[2] or s[1] or s[0] < 2):
+                continue        # (this scope is about numbering overloads whose parameters do not mention T)
             if scope == "conly" and not s[1]:
                 continue        # (the C-only scope is about the wrap flags of default-argument copies)
             if scope == "tcls" and s[2]:
@@ -749,7 +756,7 @@ def run_structs(chunk):
         rec = {"scope": scope, "funcs": funcs, "what": v, "queries": 0, "unknown": 0}
         if v is None:
             for key in ("c_templates", "f_templates"):
-                cex, nq, unk = injective(info[key], reserved_for=("f0", "f1") if scope.split("-")[0] in ("cls", "deep", "tcls") else ())
+                cex, nq, unk = injective(info[key], reserved_for=("f0", "f1") if scope.split("-")[0] in ("cls", "deep", "tcls", "tclsr") else ())
                 rec["queries"] += nq
                 rec["unknown"] += unk
                 if cex:
